@@ -383,7 +383,8 @@ def rule_F5(ctx, R):
         judge(f, f["path"], paths)
     for f, label, kind, mode, pre in rules_alg.alg_functions(ctx):
         paths, err = rules_alg.explore(ctx, f, 2, mode, kind, faults=1, preheld=pre,
-                                       loop_limit=(4 * (rules_alg.RETRIES + 1) if label.startswith("Retrying::raw_") and kind == "ACQ" else None))
+                                       loop_limit=(4 * (rules_alg.RETRIES + 1) if label.startswith("Retrying::raw_") and kind == "ACQ" else None),
+                                       acq_limit=((rules_alg.RETRIES + 1) if label.startswith("Retrying::raw_") and kind == "ACQ" else None))
         if err:
             res.undecided(f["path"], "analysis", err, *_floc(f))
             continue
